@@ -332,6 +332,46 @@ func checkC02(c *Ctx) {
 			}
 			R.check(okOther && found, "C02.signals", "pkg/exec."+fname+":"+siteName(u, f, call)+":other-error", u.pos(in.Pos()),
 				"any other error of the block is returned unchanged", "an error of the loop body is swallowed or replaced by the loop driver")
+			// after a failing body the next pass starts only over the "it is a continue signal" edge: every other
+			// signal or error (an exception raised in the body, 输出 …) leaves the loop
+			if errV != nil {
+				contEdges := map[cfgEdge]bool{}
+				for _, b := range f.Blocks {
+					ifi, isIf := b.Instrs[len(b.Instrs)-1].(*ssa.If)
+					if !isIf {
+						continue
+					}
+					switch cnd := ifi.Cond.(type) {
+					case *ssa.BinOp:
+						if _, isSig := fieldLoad(cnd.X, "SigType"); isSig && cnd.Op == token.EQL {
+							if k, isK := cnd.Y.(*ssa.Const); isK && k.Int64() == cont {
+								contEdges[cfgEdge{b, b.Succs[0]}] = true
+							}
+						}
+					case *ssa.Call:
+						if idx, isPred := sigPred[cnd.Call.StaticCallee()]; isPred && cnd.Call.StaticCallee() != nil && idx < len(cnd.Call.Args) {
+							if k, isK := cnd.Call.Args[idx].(*ssa.Const); isK && k.Int64() == cont {
+								contEdges[cfgEdge{b, b.Succs[0]}] = true
+							}
+						}
+					case *ssa.Extract:
+						if _, isRes := resolverCall(cnd); isRes && cnd.Index == 0 {
+							contEdges[cfgEdge{b, b.Succs[0]}] = true
+						}
+					}
+				}
+				okOnly := true
+				for _, t := range nilTests(f) {
+					if t.X != errV {
+						continue
+					}
+					if reachableAvoidingE(t.NotNil, 0, func(x ssa.Instruction) bool { return x == in }, nil, nil, contEdges) != nil {
+						okOnly = false
+					}
+				}
+				R.check(okOnly, "C02.signals", "pkg/exec."+fname+":"+siteName(u, f, call)+":only-continue-repeats", u.pos(in.Pos()),
+					"after a failing body only a 继续循环 signal starts the next pass", "after a failing body the loop can go on although the error is not a 继续循环 signal: an exception (or 输出) raised in the body is swallowed and the loop keeps running")
+			}
 		}
 	}
 	R.min("C02.signals", 9)
@@ -434,6 +474,8 @@ func checkC02(c *Ctx) {
 		R.lost("C02.branch", "pkg/exec.evalBranchStmt")
 	}
 
+	// a copied dictionary keeps its insertion order (every 令 / assignment copies): the copy walks keyOrder
+	borrowRule(c, "C11", "C11.order", "C02.copyorder")
 	// ---- C02.while
 	if f := u.ssaFunc("pkg/exec", "evalWhileLoopStmt"); f != nil {
 		conds := u.callsNamed(f, "pkg/exec.evalExpression")
@@ -508,6 +550,45 @@ func checkC02(c *Ctx) {
 		R.check(ok, "C02.last", "pkg/exec.evalPureStmtBlock", u.pos(f.Pos()), "without 输出 the block yields the value of its last statement", "the fall-off value of a block is not the last statement's value")
 	} else {
 		R.lost("C02.last", "pkg/exec.evalPureStmtBlock")
+	}
+	// the value is handed upwards unchanged: when the inner evaluator succeeded, the outer one returns exactly its value
+	for _, pr := range [][2]string{{"evalExecBlock", "pkg/exec.evalStmtBlock"}, {"evalStmtBlock", "pkg/exec.evalPureStmtBlock"}, {"evalProgram", "pkg/exec.evalExecBlock"}} {
+		f := u.ssaFunc("pkg/exec", pr[0])
+		if f == nil {
+			R.lost("C02.last", "pkg/exec."+pr[0])
+			continue
+		}
+		calls := u.callsNamed(f, pr[1])
+		ok := len(calls) >= 1
+		for _, cs := range calls {
+			errV := errResult(cs)
+			start, idx := cs.Block(), instrIndex(cs)+1
+			for _, t := range nilTests(f) {
+				if errV != nil && t.X == errV {
+					start, idx = t.OnNil, 0
+				}
+			}
+			nRet := 0
+			for _, rr := range returnsReachable(start, idx, nil) {
+				if ev := errorOperand(rr.Ret); ev != nil && (rr.NonNil[ev] || provablyNonNilError(ev)) {
+					continue
+				}
+				if start != cs.Block() && !start.Dominates(rr.Ret.Block()) {
+					continue
+				}
+				nRet++
+				for _, src := range allSources(retValue(rr.Ret, 0)) {
+					ex, isEx := src.(*ssa.Extract)
+					if !isEx || ex.Tuple != cs.Value() || ex.Index != 0 {
+						ok = false
+					}
+				}
+			}
+			if nRet == 0 {
+				ok = false
+			}
+		}
+		R.check(ok, "C02.last", "pkg/exec."+pr[0]+":passes-value-up", u.pos(f.Pos()), "on success the value of "+shortName(pr[1])+" is returned unchanged", "the value computed by "+shortName(pr[1])+" is not what "+pr[0]+" returns on success (a body without 输出 no longer yields its final expression statement)")
 	}
 }
 
